@@ -72,6 +72,20 @@ PROPS = {
             dict(name="VerifPredictorLZW"),
         ],
     ),
+    "C25": dict(
+        pkg=PD,
+        explanation="setupEncryptionKey (the open/refuse decision) executed symbolically over all outcomes of the three cryptographic validators (symbolic booleans), every CommandMode value, all 2^32 permission words, R in 2..6 and password emptiness",
+        outside="the cryptographic validators themselves (stubbed: validateOwnerPassword, validateUserPassword, validatePermissions, supportedEncryption); 'after a change only the new password works' needs the writer and reader end to end on whole documents and is NOT covered",
+        assumptions=["stub contract: the validators return (ok, nil) and touch nothing else", "relaxed validation mode (a missing trailer /ID is tolerated)"],
+        harnesses=[dict(name="VerifPasswordGate", opts=dict(unwind=200))],
+    ),
+    "C26": dict(
+        pkg=PD,
+        explanation="handlePermissions/hasNeededPermissions/maskExtract/maskModify executed symbolically: command mode symbolic over the whole CommandMode range (the real perm table from the package initialiser), P over all 2^32 words, R in 2..6, owner password present or empty",
+        outside="validatePermissions (AES-256 /Perms check, stubbed to succeed); whether a command really needs the rights pdfcpu's table assigns to it",
+        assumptions=["bit layout as documented by pdfcpu: revision 2 extract=bit 5, modify=bit 4; revision >= 3 extract=bit 10, modify=bit 11"],
+        harnesses=[dict(name="VerifPermissionGate", opts=dict(unwind=200))],
+    ),
     "C31": dict(
         pkg=API,
         explanation="PagesForPageSelection / RemainingPagesForPageRemoval / PagesForPageCollection executed symbolically on selections generated from the grammar (13 term shapes x none/!/n, every number 1-2 symbolic decimal digits, so 0, values beyond the page count and reversed ranges are included) and compared with a left-to-right reference evaluator; the accepted syntax is decided as a regular-language equivalence between the real pattern (Go MatchString search semantics) and the documented grammar by z3's string theory (unbounded in string length)",
@@ -106,6 +120,7 @@ PROPS = {
             dict(name="VerifAddInt", opts=dict(enc="int", solvers=["cvc5"]), thorough_only=True, nodiff=True),
             dict(name="VerifMultiplyInt", opts=dict(enc="int", solvers=["cvc5", "z3-new"])),
             dict(name="VerifMultiplyInt64", opts=dict(enc="int", solvers=["cvc5", "z3-new"])),
+            dict(name="VerifSelfTestErrors", nodiff=False),  # engine self-test: fmt.Errorf / errors.Is / Sprintf models
         ],
     ),
 }
